@@ -1,7 +1,7 @@
-(* C14 phase 2: agreement of the two reader models on modules without blackbox instances (part D6) *)
+(* C14 phase 2: agreement of the two reader models on the documented subset (part D6) *)
 From stdpp Require Import strings gmap sets pretty.
 From CG Require Import Model.FastVerilog Proofs.FastVerilogProofs Gen.Gen_fastv Base.Sem Base.Compose.
-From CG Require Import Proofs.FvA0 Proofs.FvA1 Proofs.FvA2 Proofs.FvA3 Proofs.FvA4 Proofs.FvA5 Proofs.FvA6 Proofs.FvA7 Proofs.FvA8 Proofs.FvA9 Proofs.FvA10 Proofs.FvB1 Proofs.FvB2 Proofs.FvB3 Proofs.FvB4 Proofs.FvB5 Proofs.FvC1 Proofs.FvC2 Proofs.FvD1 Proofs.FvD2 Proofs.FvD3 Proofs.FvD4 Proofs.FvD5.
+From CG Require Import Proofs.FvA0 Proofs.FvA1 Proofs.FvA2 Proofs.FvP1 Proofs.FvE1 Proofs.FvE2 Proofs.FvE3 Proofs.FvE4 Proofs.FvA3 Proofs.FvE5 Proofs.FvE6 Proofs.FvE7 Proofs.FvA4 Proofs.FvA5 Proofs.FvA6 Proofs.FvA7 Proofs.FvA8 Proofs.FvA9 Proofs.FvA10 Proofs.FvB1 Proofs.FvB2 Proofs.FvB3 Proofs.FvB4 Proofs.FvB5 Proofs.FvC1 Proofs.FvC2 Proofs.FvD1 Proofs.FvD2 Proofs.FvD3 Proofs.FvD4 Proofs.FvD5.
 Open Scope string_scope.
 
 Lemma uid_in_cases U n : uid_in U n = n ∨ ∃ j, uid_in U n = cand n j.
@@ -26,18 +26,22 @@ Proof.
     unfold cand, pre; vm_compute full_tie0; vm_compute full_tie1; simpl; six.
 Qed.
 
-(* THE AGREEMENT THEOREM for modules without blackbox instances *)
-Theorem agree_gates a bbs : in_subset a bbs = true → no_inst a = true → agreement a bbs.
+(* THE AGREEMENT THEOREM: every AST of the documented subset *)
+Theorem agree_all a bbs : in_subset a bbs = true → agreement a bbs.
 Proof.
-  intros Hsub Hni.
-  destruct (fast_sem_char a bbs Hsub Hni) as (g3 & g4 & Hg3 & Hg4 & Hfast).
-  destruct (full_sem_char a bbs Hsub Hni) as (C1 & g1 & Hrel & _ & Hg1 & Hfull).
+  intros Hsub. pose proof (in_subset_facts a bbs Hsub) as HF.
+  destruct (fast_sem_char a bbs Hsub) as (g3 & g4 & Bf & Hg3 & Hg4 & Hfast).
+  destruct (full_sem_char a bbs Hsub) as (C1 & g1 & Hrel & Hg1 & Hfull).
   destruct (full_ties_facts a) as (_ & (Hl0 & Hl1 & Hlx) & N01 & N0x & N1x).
-  destruct (fast_fresh a) as [Hk0 Hk1].
+  destruct (full_ties_nodot a) as (Hd0 & Hd1 & Hdx).
+  destruct (fast_fresh a) as [Hk0 Hk1]. pose proof (fast_nodot a) as Hkd.
   eexists _, _. split; [exact Hfast|]. split; [exact Hfull|].
-  unfold untie, with_g. cbn [c_name c_g c_bbs]. f_equal. apply map_eq. intros m.
-  rewrite (untie_fin a bbs Hsub Hni (kt0 a) (kt1 a) (conj Hk0 Hk1) (fast_distinct6 a)).
-  2:{ apply (fast_fin a bbs Hsub Hni (kt0 a) (kt1 a) (conj Hk0 Hk1) (fast_ne a) g3 g4 Hg3 Hg4). }
-  rewrite (untie_fin a bbs Hsub Hni (ft0 a) (ft1 a) (conj Hl0 Hl1) (full_distinct6 a)); [done|].
-  apply (full_fin a bbs Hsub Hni (ft0 a) (ft1 a) (conj Hl0 Hl1) N01 (ftx a) (c_g C1) g1); try done; by apply not_eq_sym.
+  destruct (registry_agree a bbs _ _ (sf_bbs a bbs HF) Hfast Hfull) as [_ Hbbs]. cbn [c_bbs] in Hbbs.
+  unfold untie, with_g. cbn [c_name c_g c_bbs]. rewrite Hbbs. f_equal. apply map_eq. intros m.
+  rewrite (untie_fin a bbs Hsub (kt0 a) (kt1 a) (conj Hk0 Hk1) (fast_distinct6 a) Hkd).
+  2:{ apply (fast_fin a bbs Hsub (kt0 a) (kt1 a) (conj Hk0 Hk1) (fast_ne a) Hkd g3 g4 Hg3 Hg4). }
+  rewrite (untie_fin a bbs Hsub (ft0 a) (ft1 a) (conj Hl0 Hl1) (full_distinct6 a) (conj Hd0 Hd1)); [done|].
+  apply (full_fin a bbs Hsub (ft0 a) (ft1 a) (conj Hl0 Hl1) N01 (conj Hd0 Hd1) (ftx a) (c_g C1) g1); try done; by apply not_eq_sym.
 Qed.
+Corollary agree_gates a bbs : in_subset a bbs = true → no_inst a = true → agreement a bbs.
+Proof. intros H _. by apply agree_all. Qed.
